@@ -15,6 +15,12 @@ import (
 	"golang.org/x/crypto/chacha20poly1305"
 )
 
+// MaxEncryptedMessageSize is the largest message EncryptToEd25519 accepts and
+// DecryptWithEd25519 returns. The message travels compressed and the ciphertext
+// declares its decompressed size: without a limit a ciphertext of a few dozen
+// bytes makes the receiver allocate up to 4 GiB.
+const MaxEncryptedMessageSize = 16 << 20
+
 // EncryptToEd25519 encrypts to a ed25519 key using curve25519.
 //
 // t is the target ed25519 public key.
@@ -42,6 +48,9 @@ func EncryptToEd25519(
 ) ([]byte, error) {
 	if len(tPubKey) != 32 {
 		return nil, errors.Errorf("unexpected ed25519 public key len: %d", len(tPubKey))
+	}
+	if len(msgSrc) > MaxEncryptedMessageSize {
+		return nil, ErrMessageTooLarge
 	}
 
 	// mix pub key and msg src into 32-byte seed: blake3(context + msgSrc + tPubKey)
@@ -269,6 +278,15 @@ func DecryptWithEd25519(
 	msgDec, err := cipher.Open(nil, msgNonce, msgEnc, msgPubKey[:])
 	if err != nil {
 		return nil, err
+	}
+
+	// the sender declares the decompressed size: check it before allocating
+	msgLen, err := s2.DecodedLen(msgDec)
+	if err != nil {
+		return nil, err
+	}
+	if msgLen > MaxEncryptedMessageSize {
+		return nil, ErrMessageTooLarge
 	}
 
 	// decompress message, re-use scrubbed shared secret buffer
